@@ -476,7 +476,7 @@ def attrSetRev (sch : Schema) (o : ObjId) (a : AttrId) (x : ObjId) (st : St) : R
 
 /-! ## 8. Set.__set__ -/
 
-/-- the bookkeeping after `setdata.clear(); setdata |= new_items` in Set.__set__ (stale locals as in the code) -/
+/-- the bookkeeping after `setdata.clear(); setdata |= new_items` in Set.__set__ -/
 def rewriteSet (s : Store) (o : ObjId) (c : AttrId) (new : ObjId → Bool) (toAdd toRemove : ObjId → Bool) : Store :=
   let r := s.row o
   let added0 := r.added c
@@ -489,14 +489,14 @@ def rewriteSet (s : Store) (o : ObjId) (c : AttrId) (new : ObjId → Bool) (toAd
   let toAdd' : ObjId → Bool := if hasAdd && removed0T then fun x => toAdd x && !removed0 x else toAdd
   let removed1 : ObjId → Bool := if hasAdd && removed0T then fun x => removed0 x && !toAdd x else removed0
   let added1 : ObjId → Bool := if hasAdd then (if added0T then fun x => added0 x || toAdd' x else toAdd') else added0
-  -- if to_remove: if added: (to_remove, setdata.added) = (to_remove - added, added - to_remove); if removed: removed |= to_remove else setdata.removed = to_remove
-  let toRemove' : ObjId → Bool := if hasRem && added0T then fun x => toRemove x && !added1 x else toRemove
-  let added2 : ObjId → Bool := if hasRem && added0T then fun x => added1 x && !toRemove x else added1
+  -- if to_remove: added = setdata.added; removed = setdata.removed   (re-read: both may have been rebound above)
+  --   if added: (to_remove, setdata.added) = (to_remove - added, added - to_remove); if removed: removed |= to_remove else setdata.removed = to_remove
+  let added1T := s.nonEmpty added1
+  let removed1T := s.nonEmpty removed1
+  let toRemove' : ObjId → Bool := if hasRem && added1T then fun x => toRemove x && !added1 x else toRemove
+  let added2 : ObjId → Bool := if hasRem && added1T then fun x => added1 x && !toRemove x else added1
   let removed2 : ObjId → Bool :=
-    if hasRem then
-      if removed0T then (if hasAdd then removed1                           -- `removed |= to_remove` hits the stale set object
-                         else fun x => removed0 x || toRemove' x)
-      else toRemove'
+    if hasRem then (if removed1T then fun x => removed1 x || toRemove' x else toRemove')
     else removed1
   let cnt : Int := ((List.range s.n).filter new).length
   let s1 := s.upd o fun r => r.putColl c new added2 removed2 cnt
@@ -792,8 +792,9 @@ def collRemove (sch : Schema) (fuel : Nat) (o : ObjId) (c : AttrId) (items : Lis
       let old' : ObjId → Bool := if s.nonEmpty added0 then fun x => isOld x && !added0 x else isOld
       let added1 : ObjId → Bool := if s.nonEmpty added0 then fun x => added0 x && !isOld x else added0
       let removed1 : ObjId → Bool := if s.nonEmpty removed0 then fun x => removed0 x || old' x else old'
+      -- count -= len(items & setdata): for a one-to-many collection the reverse calls have removed (and counted) the items already
       let s1 := s.upd o fun r => { r with items := set1 r.items c (fun x => r.items c x && !isOld x),
-                                          count := set1 r.count c (r.count c - old.length),
+                                          count := set1 r.count c (r.count c - (old.filter fun x => r.items c x).length),
                                           added := set1 r.added c added1, removed := set1 r.removed c removed1 }
       .ok (st.setStore { s1 with modColl := set2 s1.modColl c o true, modKey := set1 s1.modKey c true, modified := true })
   | _, _ => .err .noSuchAttr st
